@@ -118,6 +118,13 @@ def build_pool(rng, size):
     for g in ["U6", "U6b", "C6", "P6", "S6"]:
         for bc in local[:6] + ["lowV_highD", "lowD_highV"]:
             add({"kind": "make_operator", "grid": g, "op": "laplace", "kwargs": {}, "bc": bc, "dtype": "float64", "seed": 1})
+    # operators that differ only in their keyword arguments (dense: both variants on the same key)
+    for g in ["U6", "C6", "U64"]:
+        for op, kw in ops[1:]:
+            for bc in ("value0", "derivative1"):
+                add({"kind": "make_operator", "grid": g, "op": op, "kwargs": kw, "bc": bc, "dtype": "float64", "seed": 1})
+                add({"kind": "field_method", "grid": g, "op": op, "kwargs": kw, "bc": bc, "seed": 1})
+            add({"kind": "no_bc", "grid": g, "op": op, "kwargs": kw, "seed": 1})
     # twins with colliding number hashes: grids, boundary values, fill values
     for g in ["Cm1", "Cm2"]:
         for bc in ["valuem1", "valuem2", "derivativem1", "derivativem2", "mixed1cm1", "mixed1cm2"]:
@@ -507,8 +514,25 @@ def run_shard(spec: dict) -> ShardResult:
     pool_rng = np.random.default_rng([spec["seed"], 4])  # the pool is shared by all histories of a run
     pool = build_pool(pool_rng, spec["pool"])
     length = int(rng.integers(spec["length"][0], spec["length"][1] + 1))
-    # histories favour near-collisions: after a request, pick with 60% a request differing in one attribute
-    history = [pool[int(rng.integers(len(pool)))]]
+    # every history has a focus family (by shard index) from which its first ten requests are chained, so
+    # that each family of near-collisions is exercised densely in some history of every run
+    families = [
+        lambda r: r["kind"] == "make_operator" and r.get("op") == "laplace",
+        lambda r: r["kind"] in ("make_operator", "field_method", "no_bc") and r.get("op") != "laplace",
+        lambda r: r.get("grid") in ("Cm1", "Cm2", "C2m1", "C2m2") or str(r.get("bc", "")).endswith(("m1", "m2")) or r.get("fill") in (-1.0, -2.0),
+        lambda r: r.get("grid") in ("C6", "C6e", "F1", "F1e", "S6", "S6e") and r["kind"] == "rate",
+        lambda r: r["kind"] == "rate_const",
+        lambda r: r["kind"] == "rate",
+        lambda r: r["kind"] == "interpolate",
+        lambda r: r["kind"] in ("solve", "expression"),
+    ]
+    focus = [r for r in pool if families[spec["index"] % len(families)](r)] or pool
+    res.seen("focus_families_seen", spec["index"] % len(families))
+    history = [focus[int(rng.integers(len(focus)))]]
+    while len(history) < min(10, length):
+        near = [r for r in focus if differs_in_one(r, history[-1])]
+        history.append(near[int(rng.integers(len(near)))] if near and rng.random() < 0.75 else focus[int(rng.integers(len(focus)))])
+    # afterwards histories favour near-collisions: after a request, pick with 60% a request differing in one attribute
     while len(history) < length:
         last = history[-1]
         near = [r for r in pool if differs_in_one(r, last)]
